@@ -131,6 +131,37 @@ def main():
     ibody = norm(function_body(src, 'get_interface_size_alignment'))
     esabody = norm(function_body(src, 'get_enum_size_alignment'))
 
+    # ---- _g_ir_node_compute_offsets: which loop each kind of entry goes through (a class / interface /
+    # boxed entry uses the struct loop), and how girnode.c puts field->offset into the FieldBlob
+    cbody = function_body(src, '_g_ir_node_compute_offsets')
+    dispatch = []
+    labels = []
+    for m in re.finditer(r'case\s+G_IR_NODE_(\w+)\s*:|default\s*:|\b(compute_\w+)\s*\(', cbody):
+        if m.group(1):
+            labels.append(m.group(1))
+        elif m.group(2):
+            dispatch.append('%s:%s' % (','.join(labels), m.group(2)))
+            labels = []
+        else:
+            labels = []
+    if not dispatch:
+        raise SystemExit('gen_ffisizes: no compute_* call found in _g_ir_node_compute_offsets')
+    with open(os.path.join(REPO, 'girepository', 'girnode.c')) as f:
+        nsrc = strip_comments(f.read())
+    m = re.search(r'if\s*\(field->offset[^;]*;\s*else[^;]*;', nsrc)
+    if not m:
+        raise SystemExit('gen_ffisizes: the FieldBlob struct_offset assignment was not found in girnode.c')
+    offset_store = norm(m.group(0))
+    with open(os.path.join(REPO, 'girepository', 'gitypelib-internal.h')) as f:
+        hsrc = strip_comments(f.read())
+    m = re.search(r'typedef\s+struct\s*\{([^}]*)\}\s*FieldBlob\s*;', hsrc)
+    if not m:
+        raise SystemExit('gen_ffisizes: FieldBlob not found in gitypelib-internal.h')
+    fm = re.search(r'(\w+)\s+struct_offset\s*(:\s*\d+)?\s*;', m.group(1))
+    if not fm:
+        raise SystemExit('gen_ffisizes: FieldBlob.struct_offset not found')
+    offset_decl = norm(fm.group(0))
+
     # ---- the nine probe enums, copied textually --------------------------------
     enums = re.findall(r'typedef\s+enum\s*\{[^}]*\}\s*Enum(\d)\s*;', src)
     enum_text = re.findall(r'(typedef\s+enum\s*\{[^}]*\}\s*Enum\d\s*;)', src)
@@ -273,6 +304,12 @@ def fieldSizeShape : String := %s
 def typeSizeShape : String := %s
 def ifaceSizeShape : String := %s
 
+/-- _g_ir_node_compute_offsets: "<node kinds>:<function called for them>", in source order -/
+def computeDispatchShape : List String := %s
+/-- girnode.c, G_IR_NODE_FIELD: how field->offset reaches FieldBlob.struct_offset, and the member's declaration -/
+def fieldOffsetStoreShape : String := %s
+def fieldOffsetDeclShape : String := %s
+
 end GIVerif.Gen
 ''' % (lst(['(%d, %s, %d, %d, %d)' % (t, lean_str(n), k, s, a) for t, n, k, s, a in tags]),
        ptr[0], ptr[1],
@@ -286,7 +323,8 @@ end GIVerif.Gen
        lean_str(struct_tail), lean_str(struct_loop),
        lean_str(union_init), lst([lean_str(s) for s in union_ok]), lean_str(union_tail), lean_str(union_loop),
        lean_str(enum_fold), lean_str(etxt),
-       lean_str(esabody), lean_str(fbody), lean_str(tbody), lean_str(ibody))
+       lean_str(esabody), lean_str(fbody), lean_str(tbody), lean_str(ibody),
+       lst([lean_str(x) for x in dispatch]), lean_str(offset_store), lean_str(offset_decl))
     text = text.replace(':= -', ':= -')  # negative literals are fine for Int
     path, digest, changed = write_if_changed('FfiSizes.lean', text)
     print('gen_ffisizes: %s sha256=%s changed=%s tags=%d probes=%d' % (path, digest[:12], changed, len(tags), len(probes)))
